@@ -191,6 +191,7 @@ structure St where
   execLog : List (Pid × Tid) := []
   initLog : List Pid := []
   cancelOk : List Wid := []
+  execW : List Wid := []            -- work ids whose body was started, in order
 
 def upd {α : Type} (f : Nat → α) (p : Nat) (v : α) : Nat → α := fun q => if q = p then v else f q
 
@@ -407,7 +408,7 @@ def stepW (s : St) (p : Pid) (v : Variant) : Option St :=
   | .eTry, .fail => if s.mgmt = 0 then some (wGet s p) else none
   | .eRel, .ok => some (set .xAcq { s with mgmt := s.mgmt + 1, oMgmt := none })
   -- a call item
-  | .task w t, .ok => some (set (.taskEnd w t) { s with execLog := s.execLog ++ [(p, t)] })
+  | .task w t, .ok => some (set (.taskEnd w t) { s with execLog := s.execLog ++ [(p, t)], execW := s.execW ++ [w] })
   | .taskEnd w t, .ok =>
       let sp := specOf s t
       let s := if t ∈ s.cfg.leakAfter then { s with leaky := upd s.leaky p true } else s
